@@ -26,18 +26,6 @@ Proof.
       rewrite (Z.eqb_sym b0 b), (Z.eqb_sym c0 c), (Z.eqb_sym a0 a). symmetry. exact E.
 Qed.
 
-Lemma ss_assoc_set_get : forall k v l k', ss_assoc k' (ss_assoc_set k v l) = if k' =? k then Some v else ss_assoc k' l.
-Proof.
-  induction l as [|[k0 v0] tl IH]; intros k'; cbn.
-  - destruct (k' =? k); reflexivity.
-  - destruct (Z.eqb_spec k k0); cbn.
-    + subst. destruct (k' =? k0); reflexivity.
-    + rewrite IH. destruct (Z.eqb_spec k' k0); [|reflexivity]. subst. destruct (Z.eqb_spec k0 k); [congruence | reflexivity].
-Qed.
-
-Lemma ss_assoc0_set : forall k v l k', ss_assoc0 k' (ss_assoc_set k v l) = if k' =? k then v else ss_assoc0 k' l.
-Proof. unfold ss_assoc0; intros. rewrite ss_assoc_set_get. destruct (k' =? k); reflexivity. Qed.
-
 (* everything a successful redeem establishes *)
 Theorem ss_read_spec : forall c s client blobber alloc ts ctr id_ok sig_ok s',
   ss_read c s client blobber alloc ts ctr id_ok sig_ok = Some s' ->
